@@ -37,6 +37,8 @@ structure St where
   rolledback : List (Node × Nat) := []
   /-- identity of the most recently raised exception object / number of exceptions so far -/
   curExc : Nat := 0
+  /-- ghost: the call stack at the moment the most recent exception object was created -/
+  excStack : List Node := []
   /-- `executor.excinfo` / `executor.errorstack` as `get_error()` / `get_traceback()` see them -/
   lastErr : Option Err := none
   lastTb : List Node := []
@@ -155,7 +157,7 @@ def St.noteRead (s : St) (byAttr : Bool) (r : RefId) : St :=
   else s
 
 /-- a new exception object is raised -/
-def St.newExc (s : St) : St := { s with curExc := s.curExc + 1 }
+def St.newExc (s : St) : St := { s with curExc := s.curExc + 1, excStack := s.stack }
 
 /-! ### the evaluator -/
 
